@@ -42,7 +42,10 @@ CONSTANTS Scope,    \* 0 = quick domains, 1 = larger domains (thorough)
 (* 1. Abstract model values                                                *)
 (*    leaf classes: x extant | i small non-negative int (fits every        *)
 (*    integer type) | n negative int (fits i32) | g int > u32::MAX (fits   *)
-(*    i64 and u64) | f non-integral float | b bool | s pooled string |     *)
+(*    i64 and u64) | h in (i32::MAX, u32::MAX] | G in (i64::MAX, u64::MAX] |*)
+(*    N in [i64::MIN, i32::MIN) | B > u64::MAX | M < i64::MIN |            *)
+(*    T timestamp micros | z nanoseconds < 10^9 | d blob |                 *)
+(*    f non-integral float | b bool | s pooled string |                    *)
 (*    t literal text (field names, tags)                                   *)
 (***************************************************************************)
 Leaf(c, s)        == [k |-> c, s |-> s]
@@ -99,8 +102,37 @@ OpOf(kt, vt) == Enum(<<
     Variant("Remove", "remove", "newtype", <<F("0", "key", "header", kt)>>),
     Variant("Clear", "clear", "unit", <<>>) >>)
 
+\* ---- the position battery: every primitive kind of Form in every structural position -----------------
+\* kinds ("w" prims have the wide boundary domains) and the positions a field of that kind is put in
+PosKinds == {"i32", "i64", "u32", "u64", "usize", "f64", "bool", "string", "text", "bigint", "biguint", "blob", "boxblob",
+             "unit", "timestamp", "arc", "duration"}
+Positions == {"Plain", "Slot", "Attr", "Hdr", "HBody", "Body", "Vec", "Opt", "MapKey", "MapVal"}
+KindTy(k) == CASE k = "i32" -> Prim("i32w") [] k = "i64" -> Prim("i64w") [] k = "u32" -> Prim("u32w") [] k = "u64" -> Prim("u64w")
+               [] k = "f64" -> Prim("f64w") [] k = "string" -> Prim("stringw") [] k = "arc" -> Prim("i32w")
+               [] k = "boxblob" -> Prim("blob") [] k = "duration" -> Named("Duration")
+               [] OTHER -> Prim(k)
+\* HashMap keys need Eq + Hash; Option<()> is not distinguishable from ()
+ValidPos(pos, k) == /\ (pos = "MapKey" => k \notin {"f64", "timestamp", "arc", "duration"})
+                    /\ (pos = "Opt" => k # "unit")
+PosKey(pos, k) == pos \o "_" \o k
+PosKeys == {PosKey(pk[1], pk[2]) : pk \in {q \in Positions \X PosKinds : ValidPos(q[1], q[2])}}
+PosOf(key) == CHOOSE pk \in Positions \X PosKinds : PosKey(pk[1], pk[2]) = key
+PosType(pos, t) ==
+  CASE pos = "Plain"  -> Plain(t)
+    [] pos = "Slot"   -> Struct("SlotP", "named", <<F("v", "v", "slot", t)>>)
+    [] pos = "Attr"   -> Struct("AttrP", "named", <<F("a", "a", "attr", t), F("x", "x", "slot", I32)>>)
+    [] pos = "Hdr"    -> Struct("HdrP", "named", <<F("h", "h", "header", t), F("x", "x", "slot", I32)>>)
+    [] pos = "HBody"  -> Struct("HBodyP", "named", <<F("hb", "hb", "hbody", t), F("x", "x", "slot", I32)>>)
+    [] pos = "Body"   -> Struct("BodyP", "named", <<F("n", "n", "slot", I32), F("b", "b", "body", t)>>)
+    [] pos = "Vec"    -> Plain(Vec(t))
+    [] pos = "Opt"    -> Plain(Opt(t))
+    [] pos = "MapKey" -> Plain(Map(t, I32))
+    [] pos = "MapVal" -> Plain(Map(STR, t))
+
 TypeOf(key) ==
-  CASE key = "Unit"     -> Struct("Unit", "unit", <<>>)
+  IF key \in PosKeys THEN PosType(PosOf(key)[1], KindTy(PosOf(key)[2])) ELSE
+  CASE key = "Duration" -> Struct("duration", "named", <<F("secs", "secs", "slot", Prim("u64w")), F("nanos", "nanos", "slot", Prim("nanos"))>>)
+    [] key = "Unit"     -> Struct("Unit", "unit", <<>>)
     [] key = "Simple"   -> Struct("Simple", "named", <<F("first", "first", "slot", I32)>>)
     [] key = "Two"      -> Struct("Two", "named", <<F("first", "first", "slot", I32), F("second", "second", "slot", STR)>>)
     [] key = "Tup"      -> Struct("Tup", "tuple", <<F("0", "", "slot", I32), F("1", "", "slot", STR)>>)
@@ -200,7 +232,7 @@ AllKeys == {"Unit", "Simple", "Two", "Tup", "Renamed", "TupRen", "WithAttr", "Tw
             "AttrVec", "AttrMap", "HdrBoth", "HdrVec", "HdrNest", "BodyVec", "BodyStr", "BodyNest", "Skippy", "SkipTup", "Opt", "Coll",
             "GenI", "GenS", "GenTwo", "GenOptTwo", "Nested", "VecNest", "NewT", "NewS", "TagField", "Shape",
             "OpSI", "OpITwo", "ConvStruct", "ConvEnum", "Nums", "ModelVal", "WithValue", "BodyValue", "HdrValue",
-            "i32", "u64", "f64", "bool", "String", "VecI", "OptI", "MapSI", "PairIS", "OptTwo", "VecTwo", "VecOptI"} \cup ReuseKeys
+            "i32", "u64", "f64", "bool", "String", "VecI", "OptI", "MapSI", "PairIS", "OptTwo", "VecTwo", "VecOptI", "Duration"} \cup ReuseKeys \cup PosKeys
 
 
 LevelNames == {"Info", "Warn"}
@@ -243,6 +275,22 @@ PrimDom(p, d) ==
                          ELSE {Sym("s", "0")}
       [] p = "level"  -> {Txt(n) : n \in LevelNames}
       [] p = "value"  -> ValuePool(d)
+      \* the position battery: one symbol per boundary class of the kind (the pools hold the kind limits and the
+      \* values that force each MessagePack width)
+      [] p = "i32w"   -> {Sym("i", "0"), Sym("n", "0")}
+      [] p = "i64w"   -> IF d <= 1 THEN {Sym("i", "0"), Sym("n", "0"), Sym("h", "0"), Sym("g", "0"), Sym("N", "0")} ELSE {Sym("N", "0")}
+      [] p = "u32w"   -> {Sym("i", "0"), Sym("h", "0")}
+      [] p = "u64w"   -> IF d <= 1 THEN {Sym("i", "0"), Sym("h", "0"), Sym("g", "0"), Sym("G", "0")} ELSE {Sym("G", "0")}
+      [] p = "usize"  -> {Sym("i", "0"), Sym("g", "0"), Sym("G", "0")}
+      [] p = "f64w"   -> {Sym("f", "0"), Sym("f", "1")}
+      [] p = "stringw" -> {Sym("s", "0"), Sym("s", "1")}
+      [] p = "text"   -> {Sym("s", "0")}
+      [] p = "bigint" -> {Sym("i", "0"), Sym("n", "0"), Sym("G", "0"), Sym("B", "0"), Sym("M", "0")}
+      [] p = "biguint" -> {Sym("i", "0"), Sym("G", "0"), Sym("B", "0")}
+      [] p = "blob"   -> {Sym("d", "0"), Sym("d", "1")}
+      [] p = "unit"   -> {Extant}
+      [] p = "timestamp" -> {Sym("T", "0"), Sym("T", "1")}
+      [] p = "nanos"  -> {Sym("z", "0")}
 
 RECURSIVE Inst(_, _)
 InstFields(fields, d) ==
@@ -376,16 +424,23 @@ MutAt(op, v, depth) ==
 Fail  == [ok |-> FALSE]
 Ok(x) == [ok |-> TRUE, x |-> x]
 
+IntClasses == {"i", "n", "g", "h", "G", "N", "B", "M", "T", "z"}
 ReadPrim(p, v) ==
-    LET acc == CASE p = "i32"    -> {"i", "n"}
-                 [] p = "i64"    -> {"i", "n", "g"}
-                 [] p = "u32"    -> {"i"}
-                 [] p = "u64"    -> {"i", "g"}
-                 [] p = "f64"    -> {"f", "i", "n", "g"}
+    LET acc == CASE p \in {"i32", "i32w"} -> {"i", "n", "z"}
+                 [] p \in {"i64", "i64w"} -> {"i", "n", "g", "h", "N", "T", "z"}
+                 [] p \in {"u32", "u32w"} -> {"i", "h", "z"}
+                 [] p \in {"u64", "u64w", "usize"} -> {"i", "g", "h", "G", "T", "z"}
+                 [] p \in {"f64", "f64w"} -> {"f"} \cup IntClasses
                  [] p = "bool"   -> {"b"}
-                 [] p = "string" -> {"s", "t"}
+                 [] p \in {"string", "stringw", "text"} -> {"s", "t"}
+                 [] p = "bigint" -> IntClasses
+                 [] p = "biguint" -> {"i", "g", "h", "G", "B", "T", "z"}
+                 [] p = "blob"   -> {"d"}
+                 [] p = "unit"   -> {"x"}
+                 [] p = "timestamp" -> {"T"}
+                 [] p = "nanos"  -> {"z"}
                  [] p = "level"  -> {"t"}
-                 [] p = "value"  -> {"x", "i", "n", "g", "f", "b", "s", "t", "rec"}
+                 [] p = "value"  -> {"x", "f", "b", "s", "t", "d", "rec"} \cup IntClasses
     IN  IF v.k \in acc /\ (p = "level" => v.s \in LevelNames) THEN Ok(v) ELSE Fail
 
 \* simple = a single event (RecognizerReadable::is_simple)
